@@ -84,7 +84,7 @@ pub proof fn lemma_rm_order(c1: int, h1: int, w1: int, c2: int, h2: int, w2: int
                 forall|h: int, w: int| 0 <= h < ${H} && 0 <= w < ww ==> ${F}@[rm(${C} as int, h, w, hh, ww)] == #[trigger] data@[${C} as int]@[h]@[w], //@ob row_major.inv
 //@end
 
-//@unit tensor.flatten prop=C14
+//@unit tensor.flatten prop=C14 search=reshape.rowmajor
 impl Tensor {
 pub fn flatten(&self) -> (r: Self)
     requires wf(*self),
@@ -152,7 +152,7 @@ pub fn flatten(&self) -> (r: Self)
 }
 //@endunit
 
-//@unit tensor.get_flat prop=C14
+//@unit tensor.get_flat prop=C14 search=reshape.rowmajor
 impl Tensor {
 pub fn get_flat(&self) -> (r: Vec<f32>)
     requires wf(*self),
@@ -221,7 +221,7 @@ pub fn get_flat(&self) -> (r: Vec<f32>)
                 rect2(__o2@, ${Q} as int, ww),
                 forall|h: int, w: int| 0 <= h < ${Q} && 0 <= w < ww ==> #[trigger] __o2@[h]@[w] == __src@[rm(${P} as int, h, w, hh, ww)], //@ob unflatten_row_major.inv
 //@end
-//@unit tensor.get_triple prop=C14
+//@unit tensor.get_triple prop=C14 search=reshape.rowmajor
 impl Tensor {
 pub fn get_triple(&self, outputs: &Shape) -> (r: Vec<Vec<Vec<f32>>>)
     requires wf(*self),
@@ -285,7 +285,7 @@ pub open spec fn seq_of(t: Tensor, f: Seq<f32>) -> bool {
     }
 }
 
-//@unit tensor.reshape prop=C14
+//@unit tensor.reshape prop=C14 search=reshape.rowmajor
 impl Tensor {
 pub fn reshape(self, shape: Shape) -> (r: Self)
     requires wf(self),
